@@ -257,7 +257,11 @@ def main():
             f.write("pub const N: usize = %d;\n" % len(lines))
             f.write("pub fn run_all(lines: &[serde_json::Value], t: &mut harness::tl::Tally) {\n")
             for i in range(len(lines)):
-                f.write("    sh%d::run(&lines[%d], t, %d);\n" % (i, i, i))
+                # a panic of the code under test is data: reported as a mismatch of this shape
+                f.write("    { let mut loc = harness::tl::Tally::new(); let r = std::panic::catch_unwind(std::panic::AssertUnwindSafe(|| sh%d::run(&lines[%d], &mut loc, %d)));\n" % (i, i, i))
+                f.write("      t.lines += loc.lines; loc.lines = 0; t.absorb(loc);\n")
+                f.write("      if let Err(e) = r { let msg = e.downcast_ref::<String>().cloned().or_else(|| e.downcast_ref::<&str>().map(|s| s.to_string())).unwrap_or_default();\n")
+                f.write("        t.miss(serde_json::json!({\"line\": %d, \"class\": \"panic\", \"panic\": msg, \"shape\": lines[%d][\"shape\"]})); } }\n" % (i, i))
             f.write("}\n")
         # compile-fail: the setter of an excluded field must not exist; control: the setter of an animated field does
         ill = []
